@@ -195,6 +195,7 @@ func (w *World) performNew(o *op, now time.Duration) {
 	o.nth = w.opCount[k]
 	if f := w.findFault(actor, opNew, 1); f != nil && f.Class == "fatal" {
 		w.stat("fault.new.fatal")
+		w.fire(o, "fatal")
 		w.Log.add(now, actor, "new", "FAULT")
 		w.FailedNew = append(w.FailedNew, actor)
 		w.release(o, opResult{err: w.sentinel(o)})
@@ -239,6 +240,7 @@ func (ep *Endpoint) perform(w *World, o *op, now time.Duration) {
 		}
 		if o.fault != nil && o.fault.Class == "fatal" {
 			w.stat("fault.filter.fatal")
+			w.fire(o, "fatal")
 			err := w.sentinel(o)
 			ep.Filters = append(ep.Filters, FilterRec{At: now, Spec: o.spec, Err: err.Error()})
 			w.Log.add(now, ep.Actor, "filter", "FAULT")
@@ -285,6 +287,7 @@ func (ep *Endpoint) perform(w *World, o *op, now time.Duration) {
 		ep.Deadlines++
 		if o.fault != nil && o.fault.Class == "fatal" {
 			w.stat("fault.deadline.fatal")
+			w.fire(o, "fatal")
 			w.Log.add(now, ep.Actor, "deadline", "FAULT")
 			w.release(o, opResult{err: w.sentinel(o)})
 			return
@@ -335,16 +338,19 @@ func (ep *Endpoint) performRead(w *World, o *op, now time.Duration) {
 		switch o.fault.Class {
 		case "fatal":
 			w.stat("fault.read.fatal")
+			w.fire(o, "fatal")
 			w.Log.add(now, ep.Actor, "read", "FAULT fatal")
 			finish(0, w.sentinel(o), "fault:fatal")
 			return
 		case "deadline":
 			w.stat("fault.read.deadline")
+			w.fire(o, "deadline")
 			w.Log.add(now, ep.Actor, "read", "FAULT deadline")
 			finish(0, os.ErrDeadlineExceeded, "fault:deadline")
 			return
 		case "zero":
 			w.stat("fault.read.zero")
+			w.fire(o, "zero")
 			w.Log.add(now, ep.Actor, "read", "FAULT zero")
 			finish(0, nil, "zero")
 			return
@@ -410,6 +416,7 @@ func (ep *Endpoint) performWrite(w *World, o *op, now time.Duration) {
 	if o.fault != nil && o.fault.Class == "fatal" {
 		pr.Failed = true
 		w.stat("fault.write.fatal")
+		w.fire(o, "fatal")
 		w.Log.add(now, ep.Actor, "write", "FAULT ttl="+strconv.Itoa(pr.TTL()))
 		w.unpark(o)
 		o.done <- opResult{err: w.sentinel(o)}
